@@ -3,7 +3,99 @@ use arrow_buffer::{BooleanBuffer, NullBuffer, OffsetBuffer, ScalarBuffer};
 use lance_encoding::repdef::*;
 use std::sync::Arc;
 
+pub fn symtok_probe() -> i32 {
+    use crate::k28::*;
+    use crate::prng::Rng;
+    for case in 0..32u64 {
+        let mut rng = Rng::for_case(7, case);
+        let (strings, sinfo) = symtok_corpus_info(&mut rng, if case % 2 == 0 { 70_000 } else { 200_000 });
+        let mut buf = vec![];
+        let mut offs = vec![0i32];
+        for s in &strings {
+            buf.extend_from_slice(s);
+            offs.push(buf.len() as i32);
+        }
+        let mut hist = [0usize; 256];
+        for b in &buf {
+            hist[*b as usize] += 1;
+        }
+        let rare = (0..256).min_by_key(|i| hist[*i]).unwrap() as u8;
+        let mut symtab = vec![0u8; fsst::fsst::FSST_SYMBOL_TABLE_SIZE];
+        let mut out = vec![0u8; buf.len() * 2];
+        let mut ooff = vec![0i32; offs.len() * 2];
+        fsst::fsst::compress(&mut symtab, &buf, &offs, &mut out, &mut ooff).unwrap();
+        let info = u64::from_ne_bytes(symtab[..8].try_into().unwrap());
+        let n = (info & 255) as usize;
+        let term = ((info >> 8) & 255) as u8;
+        let lens = &symtab[8 + n * 8..8 + n * 8 + n];
+        let mut lh = [0usize; 9];
+        let mut ends_with_term = 0;
+        let mut contains_term = 0;
+        let mut r_subs: Vec<usize> = vec![];
+        for i in 0..n {
+            let l = lens[i] as usize;
+            lh[l] += 1;
+            let sym = &symtab[8 + i * 8..8 + i * 8 + l];
+            if l > 1 && sym[l - 1] == term {
+                ends_with_term += 1;
+            }
+            if l > 1 && sym.contains(&term) {
+                contains_term += 1;
+            }
+            if l > 1 && sinfo.rare_token.windows(l).any(|w| w == sym) {
+                r_subs.push(l);
+            }
+        }
+        // low-tier tokens with at least one multi-byte symbol inside; is the byte before the terminator (inside its
+        // token) the end of a learned symbol / is the terminator's token low tier
+        let mut low_with_sym = 0;
+        for t in &sinfo.tokens[sinfo.n_hi..] {
+            let any = (0..n).any(|i| { let l = lens[i] as usize; l > 1 && t.windows(l).any(|w| w == &symtab[8 + i * 8..8 + i * 8 + l]) });
+            low_with_sym += any as usize;
+        }
+        let term_tok = sinfo.tokens.iter().position(|t| t.contains(&term));
+        let term_pos = term_tok.map(|k| sinfo.tokens[k].iter().position(|b| *b == term).unwrap());
+        print!("[l {} n_hi {} hi_w {} cut {} cut_hi {}] low tokens with a multi-byte symbol {low_with_sym}/{}; terminator in token {:?} (low tier {:?}) at pos {:?} | ", sinfo.tokens[0].len(), sinfo.n_hi, sinfo.hi_w, sinfo.cut_share, sinfo.cut_hi, 32 - sinfo.n_hi, term_tok, term_tok.map(|k| k >= sinfo.n_hi), term_pos);
+        println!("symtok {case}: {} strings {} bytes -> {} ; symbols {n} by length {:?}; rarest byte overall {rare:#04x} (count {}), terminator {term:#04x} (count {}), multi-byte symbols containing / ending with the terminator: {contains_term} / {ends_with_term}; rare token {:02x?}, rare byte at {} = {:#04x}; lengths of multi-byte symbols that are substrings of the rare token: {r_subs:?}", strings.len(), buf.len(), ooff[offs.len() - 1], &lh[1..], hist[rare as usize], hist[term as usize], sinfo.rare_token, sinfo.rare_pos, sinfo.rare_token[sinfo.rare_pos]);
+    }
+    0
+}
+
+pub fn fullzip_var_probe() -> i32 {
+    use arrow_array::*;
+    let rt = crate::fileio::runtime();
+    let base = StringArray::from(vec![Some("zz"), None, Some("a"), Some("bb"), Some("ccc")]);
+    let cases: Vec<(&str, ArrayRef)> = vec![
+        ("utf8 x3 no validity buffer", Arc::new(StringArray::from(vec!["a", "bb", "ccc"]))),
+        ("utf8 x3 validity buffer without nulls (slice)", Arc::new(base.slice(2, 3))),
+        ("utf8 x3 with a null", Arc::new(StringArray::from(vec![Some("a"), None, Some("ccc")]))),
+        ("utf8 x3 all empty, validity buffer without nulls", Arc::new(StringArray::from(vec![Some("x"), None, Some(""), Some(""), Some("")]).slice(2, 3))),
+        ("utf8 x3 all empty, no validity buffer", Arc::new(StringArray::from(vec!["", "", ""]))),
+        ("bool x963 runs", Arc::new(BooleanArray::from((0..963).map(|i| (i / 37) % 2 == 0).collect::<Vec<_>>()))),
+    ];
+    for (name, arr) in cases {
+        for md in [vec![("lance-encoding:structural-encoding", "fullzip")], vec![("lance-encoding:structural-encoding", "fullzip"), ("lance-encoding:compression", "zstd")]] {
+            let mdm: std::collections::HashMap<String, String> = md.iter().map(|(k, v)| (k.to_string(), v.to_string())).collect();
+            let schema = Arc::new(arrow_schema::Schema::new(vec![arrow_schema::Field::new("col", arr.data_type().clone(), true).with_metadata(mdm)]));
+            let batches = vec![RecordBatch::try_new(schema.clone(), vec![arr.clone()]).unwrap()];
+            let out = crate::quiet::run_attributed(|| rt.block_on(async {
+                let f = crate::fileio::write_file(&batches, schema.clone(), lance_encoding::version::LanceFileVersion::V2_1, None, "probe7").await?;
+                let r = crate::fileio::open(&f).await?;
+                crate::fileio::read_all(&r, 4096).await
+            }));
+            println!("fullzip-var [{name}] {md:?}: {}", match out { Ok(b) => format!("ok {:?}", b.iter().map(|x| format!("{:?}", x.column(0))).collect::<Vec<_>>()).replace('\n', " ").chars().take(120).collect::<String>(), Err(e) => format!("FAILED {e}") });
+        }
+    }
+    0
+}
+
 pub fn run() -> i32 {
+    if std::env::var("PROBE_SYMTOK").is_ok() {
+        return symtok_probe();
+    }
+    if std::env::var("PROBE_FZV").is_ok() {
+        return fullzip_var_probe();
+    }
     // List<Int32 nullable>, all lists valid and non-empty: [[N,1],[2]]
     let mut b = RepDefBuilder::default();
     b.add_offsets(OffsetBuffer::<i32>::new(ScalarBuffer::from(vec![0, 2, 3])), None);
